@@ -209,7 +209,9 @@ Refusals ==
    \cup {[a |-> "RmFile", ns |-> "udf", p |-> p, why |-> "rmfile-on-dir"] : p \in One(dirs)}
    \cup {[a |-> "RmHardLink", ns |-> "udf", p |-> p, why |-> "rmlink-on-dir"] : p \in One(dirs)}
    \cup {[a |-> "RmFile", ns |-> "udf", p |-> p, why |-> "rmfile-missing"] : p \in One(Free(tree))}
-   \cup {[a |-> "AddFp", blob |-> anyb, iso |-> NoPath, udf |-> <<"X">>, why |-> "name-too-long"] : p \in {1}}
+   \* (offered while the tree is small: the outcome does not depend on the rest of the tree)
+   \cup {[a |-> "AddFp", blob |-> anyb, iso |-> NoPath, udf |-> <<"X">>, why |-> "name-too-long"] :
+             p \in {q \in {1} : Cardinality(DOMAIN tree) <= 1}}
 
 Refuse == /\ nref < MaxRefuse
           /\ \E a \in Refusals : h' = Append(h, a @@ [x |-> "refuse", exp |-> TreeSeq(tree)])
